@@ -175,6 +175,17 @@ fn my_tid() -> u64 {
     TID.with(|t| *t)
 }
 
+thread_local! { static CPU_DEADLINE: std::cell::Cell<f64> = const { std::cell::Cell::new(f64::INFINITY) }; }
+/// Gives the calling thread `secs` more seconds of its own CPU time (see `cpu_deadline_passed`).
+pub fn set_cpu_deadline(secs: f64) {
+    let now = thread_cpu_s(my_tid()).unwrap_or(0.0);
+    CPU_DEADLINE.with(|d| d.set(now + secs));
+}
+pub fn cpu_deadline_passed() -> bool {
+    let dl = CPU_DEADLINE.with(|d| d.get());
+    dl.is_finite() && thread_cpu_s(my_tid()).map(|c| c > dl).unwrap_or(false)
+}
+
 /// CPU time (user + system, seconds) consumed so far by kernel thread `tid` of this process.
 fn thread_cpu_s(tid: u64) -> Option<f64> {
     let st = std::fs::read_to_string(format!("/proc/self/task/{tid}/stat")).ok()?;
@@ -403,6 +414,9 @@ pub fn run_check(env: &Arc<Env>, check: Arc<dyn Check>, tier: Tier) -> i32 {
     // candidate runs), per signature and in total, so that a check on a badly broken tree
     // (hundreds of hanging scenarios) still reports within a minute or two
     let mut work_total: u64 = 400_000_000;
+    // ... and by 60 s of CPU time in total, 12 s per signature (affects only how small the
+    // replay files get)
+    let mut cpu_left: f64 = 60.0;
     for (sig, (scn, prop, count, detail, _)) in &by_sig {
         let prop = *prop;
         if let Some(what) = known.lookup(prop, sig) {
@@ -418,8 +432,12 @@ pub fn run_check(env: &Arc<Env>, check: Arc<dyn Check>, tier: Tier) -> i32 {
         exit = 1;
         let mut work = work_total.min(80_000_000);
         let before = work;
+        cpu_left = (cpu_left - 0.0f64).max(0.0);
+        let cpu_start = thread_cpu_s(my_tid()).unwrap_or(0.0);
+        set_cpu_deadline(cpu_left.min(12.0));
         let (min_scn, min_rep) = crate::minimise::minimise(&*check, scn, sig, &mut work);
         work_total = work_total.saturating_sub(before - work);
+        cpu_left -= thread_cpu_s(my_tid()).unwrap_or(0.0) - cpu_start;
         let path = write_replay(env, &min_scn, sig, min_rep.event_hash);
         env.say(&format!("VIOLATION property={} replay={} sig={} count={} :: {}", check.id(), path, sig, count, detail));
         replays.push(path);
